@@ -127,11 +127,17 @@ type handle struct {
 // touched after destruction), for the C09 check.
 var LastLedger []string
 
+// SharedIK makes the programs that follow run with cached sessions over one shared intermediate-key cache.
+var SharedIK bool
+
 func RunProgram(w *world.World, policy string, size int, prog []Op, dur time.Duration) (sig, detail string, stats [3]int) {
 	ledStart := w.Led.Len()
 	LastLedger = nil
 	cfg := world.Default(100*time.Hour, 50*time.Hour, time.Minute)
 	cfg.SessCache, cfg.SessCap, cfg.SessPolicy, cfg.SessDur = true, size, policy, dur
+	if SharedIK {
+		cfg.SharedIK, cfg.IKPolicy, cfg.IKCap = true, "lru", 4
+	}
 	mon := NewTdMon()
 	mon.Install()
 	defer mon.Uninstall()
